@@ -362,9 +362,9 @@ class ModelBackend:
         call["changed"] = changed
         call["new_token"] = self.token()
         out = {"CheckpointToken": self.token(), "NewExecutionState": {"Operations": ops}}
-        if self.resp_page and len(ops) > self.resp_page:
+        if self.resp_page is not None and len(ops) > self.resp_page:       # (0 = an empty inline page with a NextMarker)
             out["NewExecutionState"]["Operations"] = ops[:self.resp_page]
-            out["NewExecutionState"]["NextMarker"] = self._park(ops[self.resp_page:], self.resp_page)
+            out["NewExecutionState"]["NextMarker"] = self._park(ops[self.resp_page:], max(1, self.resp_page))
         if self.on_call:
             self.on_call("ApiReturn", call)
         return out
